@@ -226,7 +226,9 @@ CLAIMED = {
              "skip_fuel_never_binds / file_reader_fuel_never_binds / block_reader_fuel_never_binds - the loops of read_array, of every struct "
              "reader, of read_string's chunks and of skip_item's levels are modelled with fuel, and above 2|input|+2 (skip: 3|input|+2) the result "
              "does not depend on it: every iteration consumes a byte or closes a level a consumed byte opened (the correspondence drivers run with "
-             "4|input|+10, so what they report on hostile files is never a fuel artefact). Failing-input search on the implementation: valid files, structure-aware mutations "
+             "4|input|+10, so what they report on hostile files is never a fuel artefact). Memory proportional to the input on EVERY byte string: value_size_bounded_by_input / "
+             "file_values_bounded_by_input - the value materialised (one unit per scalar, string byte, list element, record member) plus the input left "
+             "over never exceeds the input, whatever the length fields announce. Failing-input search on the implementation: valid files, structure-aware mutations "
              "(lying length heads up to 2^64-1, tree edits, truncation), byte mutations, nesting bombs, random bytes through reader + "
              "accessors + all renderers + block copies in-process under ASan/UBSan (allocation cap, alarm) and through the 5 CLI tools. Added after the seeded rounds: every numeric field x boundary value and every string x hostile payload (printf directives, NULs) through reader and tools; the largest single allocation request per input must stay proportional to it (sanitizer malloc hook); tables of look-alike entries must read as fast as same-shape controls (time).",
         note="Partial proof by nature: that every memory access of the C++ is one of the modelled kinds is established only by the "
